@@ -91,6 +91,16 @@ pub fn cases(tier: Tier) -> Vec<GCase> {
             }
         }
     }
+    // the composer's constant witnesses as the range-checked value
+    for w in widths(tier) {
+        for x in [zero(), one()] {
+            let expect = if m5::in_range(&x, w) { Expect::Sat(vec![]) } else { Expect::Unsat };
+            let mut c = GCase::new(gadget(Entry::Bits, w, x).with_const_handles(), expect, "range/Bits/const-handles");
+            c.rewire = w <= 17;
+            c.confirm = w <= 17 || w >= 254;
+            out.push(c);
+        }
+    }
     // crafted attack: a forged accumulator chain in which two ADJACENT quads are
     // (x, y) with delta(x) + delta(y) = 0; the range-checked value is the forged
     // final accumulator (far out of range). The row model rejects it (two quad
